@@ -830,10 +830,21 @@ func TestVerifC12WheelReentrant(t *testing.T) {
 	defer c12Flush(st, &sampled)
 	c12Calibrate()
 	slotsGen := rapid.IntRange(1, 8)
-	keyGen := rapid.SampledFrom(c12rKeys)
 	iv := time.Second
 	rapid.Check(t, func(t *rapid.T) {
 		st.Eval()
+		// one case in five is wide: 24 keys, and batches of 9..20 timers that expire on one tick (more
+		// than any small fixed pool of workers a wheel might run its callbacks on)
+		caseKeys := c12rKeys
+		wide := rapid.IntRange(0, 4).Draw(t, "wide") == 4
+		if wide {
+			caseKeys = nil
+			for i := 0; i < 24; i++ {
+				caseKeys = append(caseKeys, fmt.Sprintf("k%d", i))
+			}
+			st.Class("wide-case(24 keys)")
+		}
+		keyGen := rapid.SampledFrom(caseKeys)
 		n := slotsGen.Draw(t, "slots")
 		ending := rapid.SampledFrom([]string{"runout", "drain", "runout"}).Draw(t, "finish")
 		r, err := c12rNew(n, iv, false)
@@ -886,7 +897,7 @@ func TestVerifC12WheelReentrant(t *testing.T) {
 				return rapid.SampledFrom(pend).Draw(t, "otherPending")
 			}
 			var ks []string
-			for _, k := range c12rKeys {
+			for _, k := range caseKeys {
 				if k != own {
 					ks = append(ks, k)
 				}
@@ -932,7 +943,14 @@ func TestVerifC12WheelReentrant(t *testing.T) {
 			},
 			"setSameTick": func(t *rapid.T) {
 				// 2..3 distinct keys with one delay: they expire together
-				keys := rapid.SliceOfNDistinct(keyGen, 2, 3, rapid.ID[string]).Draw(t, "keys")
+				lo, hi := 2, 3
+				if wide {
+					lo, hi = 9, 20
+				}
+				keys := rapid.SliceOfNDistinct(keyGen, lo, hi, rapid.ID[string]).Draw(t, "keys")
+				if len(keys) >= 9 {
+					st.Class("batch>=9-set-for-one-tick")
+				}
 				steps, rem := delay(t)
 				for _, k := range keys {
 					do(setOp(t, k, steps, rem))
